@@ -6,7 +6,7 @@ import numpy as np
 from hypothesis import strategies as st
 from hypothesis.stateful import RuleBasedStateMachine, initialize, rule
 
-from ..core import machine_law, given_law
+from ..core import machine_law, given_law, Violation
 from .. import gen
 
 RULE = ("histories over a pool of (kind, parameters, seed) descriptors, kind in {ft, ft_sh, von Karman infinite, Fried "
@@ -289,7 +289,75 @@ def seedset_body(ctx, case):
         m.close()
 
 
+# ------------------------------------------------------------------ order independence across pristine processes
+
+def isolated(ops):
+    import json, os, subprocess, sys
+    from ..core import VERIF_DIR, REPO_DIR, HarnessError
+    env = dict(os.environ, PYTHONPATH=VERIF_DIR, VERIF_REPO=REPO_DIR, PYTHONHASHSEED="0", NUMBA_NUM_THREADS="1", OMP_NUM_THREADS="1")
+    p = subprocess.run([sys.executable, "-m", "vt.isolated"], input=json.dumps(ops), capture_output=True, text=True, env=env, cwd=VERIF_DIR, timeout=600)
+    if p.returncode != 0:
+        if os.path.join(REPO_DIR, "aotools") in p.stderr:
+            raise Violation("isolated run of %r failed inside the library: %s" % ([o["d"]["kind"] for o in ops], p.stderr.strip().splitlines()[-1][:200]))
+        raise HarnessError("isolated runner failed: %s" % p.stderr[-400:])
+    return json.loads(p.stdout)
+
+
+def neighbours(d):
+    out = []
+    for f, v in (("ps", d["ps"] * 2.0), ("ps", d["ps"] * 0.5), ("r0", d["r0"] * 1.7), ("L0", d["L0"] * 2.5), ("seed", d["seed"] + 1),
+                 ("N", d["N"] + (2 if d["kind"] in ("ft", "ft_sh") else 1))):
+        out.append((f, dict(d, **{f: v})))
+    if d["kind"] == "vk":
+        out.append(("ncol", dict(d, ncol=3 - d["ncol"])))
+    elif d["kind"] == "fried":
+        out.append(("factor", dict(d, factor=3 - d["factor"])))
+    else:
+        out.append(("l0", dict(d, l0=d["l0"] * 3)))
+    other = {"vk": "fried", "fried": "vk", "ft": "ft_sh", "ft_sh": "ft"}[d["kind"]]
+    o = dict(d, kind=other)
+    o.pop("ncol", None), o.pop("factor", None)
+    if other == "vk":
+        o["ncol"] = 2
+    elif other == "fried":
+        o["factor"] = 2
+    out.append(("kind", o))
+    return out
+
+
+@st.composite
+def neighbour_cases(draw):
+    d = draw(descriptor())
+    if draw(st.integers(0, 3)) > 0 and d["kind"] in ("ft", "ft_sh"):
+        d = dict(d, kind=draw(st.sampled_from(["vk", "fried"])), N=draw(st.integers(2, 9)))
+        d.pop("l0", None)
+        d["ncol" if d["kind"] == "vk" else "factor"] = draw(st.integers(1, 2))
+    return {"d": d, "rows": draw(st.integers(1, 4)), "order": draw(st.integers(0, 10**6))}
+
+
+def neighbour_body(ctx, case):
+    d, k = case["d"], case["rows"]
+    nb = neighbours(d)
+    perm = gen.np_rng(case["order"]).permutation(len(nb))
+    nb = [nb[i] for i in perm]
+    ctx.case(case, nontrivial=d["kind"] in ("vk", "fried"), classes=["kind_" + d["kind"]])
+    alone = isolated([{"d": d, "rows": k}])[0]
+    after = isolated([{"d": x, "rows": 1} for _, x in nb] + [{"d": d, "rows": k}])[-1]
+    sand = isolated([{"d": d, "rows": k}] + [{"d": x, "rows": 1} for _, x in nb] + [{"d": d, "rows": k}])
+    for name, got in (("created after instances that differ in one parameter each", after), ("created first", sand[0]), ("re-created after instances that differ in one parameter each", sand[-1])):
+        if got != alone:
+            first = next(i for i, (x, y) in enumerate(zip(got, alone)) if x != y)
+            # find the culprit parameter (diagnosis only; each extra run is a fresh process)
+            culprit = "?"
+            for f, x in nb:
+                if isolated([{"d": x, "rows": 1}, {"d": d, "rows": k}])[-1] != alone:
+                    culprit = "%s (%r vs %r)" % (f, d.get(f, d["kind"]), x.get(f, x["kind"]))
+                    break
+            ctx.require(False, "seeded %s screen %s differs from the same screen built alone in a fresh process, from row count %d on; an earlier instance differing only in %s is enough" % (d["kind"], name, first, culprit))
+
+
 LAWS = [
+    given_law("order_independence", neighbour_cases(), neighbour_body, {"quick": 3, "thorough": 12}, shards={"quick": 4, "thorough": 16}),
     given_law("distinct_seeds", seedset_cases(), seedset_body, {"quick": 25, "thorough": 100}, shards={"quick": 2, "thorough": 8}),
     machine_law("history", make_machine, replay_history, {"quick": 40, "thorough": 150}, {"quick": 25, "thorough": 40}, shards={"quick": 4, "thorough": 16}),
     given_law("reproduce", repro_cases(), repro_body, {"quick": 60, "thorough": 300}, shards={"quick": 2, "thorough": 16}),
